@@ -35,7 +35,7 @@ pub fn def() -> CheckDef {
         real: &["LazyDataSetReader", "DicomCollector (read_preamble, read_file_meta, read_dataset_up_to, read_dataset_to_end, read_basic_offset_table, read_next_fragment)", "OpenFileOptions::read_until / read_to", "DataSetReader / InMemDicomObject (reference)"],
         stub: &["seekable byte source (SimSource)", "independent file encoder producing the inputs"],
         assumptions: &["inputs are conforming files from the independent encoder (the property is stated for conforming writers)"],
-        required_probes: &["collector-portions-2plus", "collector-fragments", "collector-bot-separately", "zero-length-fragment", "lazy-skip", "stop-at-absent-tag"],
+        required_probes: &["collector-portions-2plus", "collector-fragments", "collector-bot-separately", "zero-length-fragment", "lazy-skip", "stop-at-absent-tag", "big-endian-offset-table"],
         net: false,
     }
 }
@@ -60,11 +60,14 @@ fn gen_file(w: &mut Tape, env: &EnvRef) -> Result<(Syntax, Vec<ds::Elem>, Vec<u8
         max_depth: 3,
         private: true,
         pixel: true,
-        encapsulated: syn == Syntax::ExplicitLE,
+        // encapsulated pixel data is standard only in (little endian) explicit VR, but the readers take a pixel
+        // sequence in any syntax, and the lazy reader / collector must agree with the eager reader there too
+        encapsulated: true,
         all_undefined: false,
         latin1: false,
         utf8: false,
     };
+    let restrict_to = |m: &[ds::Elem], _syn: Syntax| m.to_vec();
     let mut model = restrict_to(&ds::gen_dataset(w, &gcfg), syn);
     // pixel data more often than the generic generator gives it
     if !model.iter().any(|e| e.tag == ds::PIXEL_DATA) && w.chance(1, 2) {
@@ -79,6 +82,11 @@ fn gen_file(w: &mut Tape, env: &EnvRef) -> Result<(Syntax, Vec<ds::Elem>, Vec<u8
         }
     }
     if let Some(e) = model.iter().find(|e| e.tag == ds::PIXEL_DATA) {
+        if let Val::Frags { bot, .. } = &e.val {
+            if syn == Syntax::ExplicitBE && bot.iter().any(|x| *x != 0) {
+                env.probe("big-endian-offset-table");
+            }
+        }
         if let Val::Frags { frags, .. } = &e.val {
             if frags.iter().any(|f| f.is_empty()) {
                 env.probe("zero-length-fragment");
@@ -157,7 +165,7 @@ fn run_lazy(w: &mut Tape, env: &EnvRef) -> RunResult {
             };
             let same = match (&owned, &eager[i]) {
                 // the eager reader types the first item of a pixel sequence as an offset table
-                (DataToken::ItemValue(a), DataToken::OffsetTable(b)) => a.len() == b.len() * 4 && a.chunks(4).zip(b.iter()).all(|(x, y)| u32::from_le_bytes([x[0], x[1], x[2], x[3]]) == *y),
+                (DataToken::ItemValue(a), DataToken::OffsetTable(b)) => a.len() == b.len() * 4 && a.chunks(4).zip(b.iter()).all(|(x, y)| if syn.be() { u32::from_be_bytes([x[0], x[1], x[2], x[3]]) } else { u32::from_le_bytes([x[0], x[1], x[2], x[3]]) } == *y),
                 (a, b) => token_eq(a, b),
             };
             check!(same, "lazy-equals-eager", "c06:lazy:token-differs", "token {} differs: lazy {:?} vs eager {:?} [{}]", i, owned, eager[i], describe(&model));
@@ -295,7 +303,8 @@ fn run_collector(w: &mut Tape, env: &EnvRef) -> RunResult {
         // documented: without a prior read_basic_offset_table the table comes first, as a fragment
         let mut expected: Vec<Vec<u8>> = Vec::new();
         if let (Some(b), false) = (&expect_bot, bot_separately) {
-            expected.push(b.iter().flat_map(|x| x.to_le_bytes()).collect());
+            // (the raw item bytes, in the byte order of the data set)
+            expected.push(b.iter().flat_map(|x| if syn.be() { x.to_be_bytes() } else { x.to_le_bytes() }).collect());
         }
         // native pixel data after read_basic_offset_table: the value is still to be read
         expected.extend(expect_frags.into_iter());
